@@ -59,8 +59,8 @@ P = {
 
 ENGINES = [
     ('E1 world builder', 'vf/world.py', 'sandbox trees from JSON descriptors (virtual mount table, env, trash-dir states, hostile names)'),
-    ('E2 shim', 'vf/shim.py', 'os.*/open interposition: event trace (time-stamped on request), virtual volumes, fault/crash/interrupt/yield injection, write proxy for file objects (one traced flush), write fence, audit-hook cross-check, capability drop (mode bits bite), fake account database, open-descriptor monitor at exit'),
-    ('E3 runner', 'vf/run.py', 'fork+runpy execution of the real scripts (TZ, stream encodings, failing stderr writes, prompt-synchronised replies per run); cold subprocess mode (also under a non-UTF-8 locale)'),
+    ('E2 shim', 'vf/shim.py', 'os.*/open interposition: event trace (time-stamped on request), virtual volumes, fault/crash/interrupt/yield injection (also short sendfile counts, refused listings and chmods, a directory-swap adversary, equal inode numbers across volumes, read-only mount flag, real uid != effective uid), write proxy for file objects (one traced flush), write fence, audit-hook cross-check, capability drop (mode bits bite), fake account database, open-descriptor monitor at exit'),
+    ('E3 runner', 'vf/run.py', 'fork+runpy execution of the real scripts (TZ, stream encodings, failing stderr writes - also a real pipe without reader -, stdin closed, prompt-synchronised replies per run); cold subprocess mode (also under a non-UTF-8 locale)'),
     ('E4 snapshotter', 'vf/snap.py', 'lstat/sha256 snapshots, signatures, diffs'),
     ('E5 reference semantics', 'vf/spec.py', 'independent spec implementation: percent coding, .trashinfo grammar, trash-dir decision table, glob, reply grammar, age rule'),
     ('E6 outcome analysis / model', 'vf/putcheck.py', 'TRASHED/UNTOUCHED/frame analysis; bag model'),
